@@ -219,7 +219,7 @@ def _null_fit(B, R, Pv, wv, y):
         return np.zeros(B.shape[1]), gmin, 0, float(np.linalg.norm(R, 2))
     G = B.T @ (wv[:, None] * B)
     NZ = Z.T @ (G + R) @ Z
-    a = np.linalg.solve(NZ, Z.T @ (B.T @ (wv * y)))
+    a = np.linalg.lstsq(NZ, Z.T @ (B.T @ (wv * y)), rcond=None)[0]
     return Z @ a, gmin, int(Z.shape[1]), float(np.linalg.eigvalsh((NZ + NZ.T) / 2).min())
 
 
@@ -243,6 +243,13 @@ def _qs(a):
 
 
 def _worker(case):
+    try:
+        return _worker_(case)
+    except np.linalg.LinAlgError as e:       # of the NumPy oracle formulas, not of pyGAM (fit_quiet catches those)
+        return dict(case=case, status='oracle-linalg-error', msg=str(e)[:100])
+
+
+def _worker_(case):
     import warnings
     warnings.filterwarnings('ignore')
     pygam = common.import_pygam()
@@ -440,7 +447,7 @@ def run(ctx):
         ctx.count('varied', case['kind'])
         if r['status'] != 'ok':
             ctx.count('path status', r['status'])
-            if r['status'] not in ('ValueError', 'generator-rejected', 'nonfinite-coef', 'OptimizationError'):
+            if r['status'] not in ('ValueError', 'generator-rejected', 'nonfinite-coef', 'OptimizationError', 'oracle-linalg-error'):
                 ctx.case(st_mono, sig, nontrivial=True)
                 ctx.fail(st_mono, dict(kind='exception', exc=r['status']), dict(path=case, lam=r.get('lam')), observed='%s: %s' % (r['status'], r.get('msg', '')),
                          expected='a fit or a ValueError', oracle='fit must not raise an unrelated exception')
